@@ -112,6 +112,13 @@ impl Renderer {
 			let mut frame = self.temp_buffer[i];
 			frame.left = frame.left.clamp(-1.0, 1.0);
 			frame.right = frame.right.clamp(-1.0, 1.0);
+			// clamp() lets NaN through; never hand one to the device
+			if frame.left.is_nan() {
+				frame.left = 0.0;
+			}
+			if frame.right.is_nan() {
+				frame.right = 0.0;
+			}
 			if num_channels == 1 {
 				channels[0] = (frame.left + frame.right) / 2.0;
 			} else {
